@@ -143,7 +143,11 @@ theorem order_extents_covers (cs : List Ext) (idToTopo : List Nat)
     them, and a new concept (not in the list) with which the list still has a greatest and a least concept — returns
     the correct children and parents dictionaries, top and bottom index of the enlarged list `concepts + [new]`,
     for every iteration order of the sets and every fuel above the closed-form bound `addFuel`
-    (`AddInput` bundles exactly these hypotheses; the three branches new-top / new-bottom / in-between are covered). -/
+    (`AddInput` bundles exactly these hypotheses; the three branches new-top / new-bottom / in-between are covered).
+    Purity: the model is a function — it returns new values and cannot modify `cs` / `r`.  That the real helper
+    leaves the caller's list and dictionaries untouched with `inplace=False` (and puts the result into them with
+    `inplace=True`) is therefore NOT a consequence of this theorem; the correspondence check establishes it on the
+    explored inputs (deep comparison with a snapshot, and a history of further calls on the same base). -/
 theorem add_concept_correct (cs : List Ext) (new : Ext) (r : Rel) (t0 b0 : Nat)
     (hin : AddInput cs new r t0 b0) (ord : List Nat → List Nat) (hord : OrdOK ord)
     (fuel : Nat) (hfuel : addFuel cs new r ≤ fuel) :
@@ -184,7 +188,9 @@ example : AddInput [[0], []] [0, 1] ⟨[[1], []], [[], [0]], some 0, some 1⟩ 0
     indexes or `None`, and an index whose removal leaves a list that still has a greatest and a least concept
     (this includes removing the top or the bottom itself when it has a single neighbour) — returns the correct
     children and parents dictionaries (re-indexed), top and bottom index of the reduced list, for every iteration
-    order of the sets (`RemInput` bundles exactly these hypotheses). -/
+    order of the sets (`RemInput` bundles exactly these hypotheses).  Purity: as for `add_concept_correct` the
+    model returns new values; that the real helper does not touch its inputs with `inplace=False` is checked by the
+    correspondence check, not proved here. -/
 theorem remove_concept_correct (cs : List Ext) (ci : Nat) (r : Rel) (t0 b0 : Nat)
     (hin : RemInput cs ci r t0 b0) (ord : List Nat → List Nat) (hord : OrdOK ord) :
     ∃ r', removeConcept cs ci r ord = .ok r' ∧
